@@ -112,6 +112,14 @@ impl Clone for Line {
         Line { chars: self.chars.clone() }
     }
 }
+// S4 (ASSUMED): `#[derive(Clone)]` on layer::Properties is structural (offered so that changed code which starts to copy layer properties is
+// checked against what that copy does, instead of stopping at "no method named clone")
+impl Clone for Properties {
+    #[verifier::external_body]
+    fn clone(&self) -> (r: Self)
+        ensures r == *self,
+    { unimplemented!() }
+}
 // S6 (ASSUMED): std's blanket `impl<T> From<T> for T` is the identity (Position -> Position).
 #[verifier::external_body]
 pub proof fn axiom_position_into_self()
